@@ -46,7 +46,7 @@ func (w *c19World) sfInputs() {
 			}
 		}
 		if !distOK {
-			w.tr.Line("gauge.sfxfer", u(g.Id), "err", "0") // not reached by the code
+			w.tr.Line("gauge.sfxfer", u(g.Id), "err", "0", g.DepositAmount.Denom) // not reached by the code
 			continue
 		}
 		var coin sdk.Coin
@@ -54,12 +54,16 @@ func (w *c19World) sfInputs() {
 		panicked, _ := try(func() { coin, err = w.app.LiquidityKeeper.TransferFundsForSwapFeeDistribution(sim, g.AppId, meta.PoolId) })
 		switch {
 		case panicked || err != nil:
-			w.tr.Line("gauge.sfxfer", u(g.Id), "err", "0")
+			w.tr.Line("gauge.sfxfer", u(g.Id), "err", "0", g.DepositAmount.Denom)
 			w.tr.Count("sfxfer:err")
-		case coin.Denom != g.DepositAmount.Denom:
-			w.t.Fatalf("swap-fee denomination changed (%s → %s): not modelled", g.DepositAmount.Denom, coin.Denom)
 		default:
-			w.tr.Line("gauge.sfxfer", u(g.Id), "ok", coin.Amount.String())
+			if coin.Denom != g.DepositAmount.Denom {
+				w.tr.Count("sfxfer:denom-changed")
+				if g.DepositAmount.IsPositive() {
+					w.tr.Count("sfxfer:denom-changed-with-remainder")
+				}
+			}
+			w.tr.Line("gauge.sfxfer", u(g.Id), "ok", coin.Amount.String(), coin.Denom)
 			if coin.Amount.IsPositive() {
 				w.tr.Count("sfxfer:ok-positive")
 			} else {
@@ -148,6 +152,34 @@ func c19WitnessSfLeak(t *testing.T, tr *Trace) {
 	tr.Count("witness:sf_leak")
 }
 
+// S2 (directed, no defect): change of `SwapFeeDistrDenom` while a swap-fee gauge holds an undistributed remainder.  Pool 1 has
+// no farmer at first: its gauge collects uasset1 fees and cannot distribute them.  The parameter is changed to uasset2 through
+// the real UpdateGenericParams; the next epoch's fees arrive in uasset2 and REPLACE the deposit (the uasset1 remainder stays in
+// the account, owed to nobody).  An unrelated gauge holds uasset2 in the same account; later epochs pay a farmer.  (Seeded s117:
+// the remainder relabelled as uasset2 is owed without being held.)
+func c19SfDenomChangeCase(t *testing.T, tr *Trace) {
+	w := c19NewWorldOpt(t, tr, 100000000, 1000000, [4]uint64{1000000, 1000000, 1000000, 1000000}, "uasset1")
+	w.denoms = append(w.denoms, "uasset2")
+	f := w.acct(1)
+	pc := w.deposit(f, w.pools[0], 10000000) // holds pool coins, farms only later
+	w.block(time.Hour)
+	w.swap(w.acct(2), 0, false, 12000000) // fee in uasset1
+	w.block(25 * time.Hour)
+	w.block(25 * time.Hour) // gauge 1 funded with uasset1
+	w.swap(w.acct(2), 0, false, 8000000)
+	w.block(25 * time.Hour) // no farmer: nothing distributed, the deposit grows
+	w.must(w.app.LiquidityKeeper.UpdateGenericParams(w.ctx, w.appID, []string{"SwapFeeDistrDenom"}, []string{"uasset2"}))
+	w.ballastGauge("uasset2", 1000000)
+	w.swap(w.acct(3), 0, true, 9000000) // fee in uasset2
+	w.must(w.farm(f, w.pools[0], pc.Amount))
+	w.block(25 * time.Hour) // (farmer still queued) fees arrive in uasset2: the deposit is replaced
+	w.swap(w.acct(3), 0, true, 5000000)
+	w.block(25 * time.Hour)
+	w.block(25 * time.Hour)
+	w.block(25 * time.Hour)
+	tr.Count("corpus:sf-denom-change")
+}
+
 func c19SfWorld(t *testing.T, tr *Trace, rng *Rng) {
 	reserve := []int64{100000000, 10000000000, 1000000000000}[rng.Intn(3)]
 	w := c19NewWorldOpt(t, tr, reserve, 1000000, [4]uint64{1000000, []uint64{1000000, 2000000}[rng.Intn(2)], 1000000, 1000000}, "uasset1")
@@ -227,5 +259,6 @@ func TestC19SfOnly(t *testing.T) {
 	defer tr.Close(t)
 	rng := NewRng(seed())
 	c19WitnessSfLeak(t, tr)
+	c19SfDenomChangeCase(t, tr)
 	c19SfWorlds(t, tr, rng)
 }
